@@ -26,6 +26,34 @@ CACHE = os.path.join(VERIF, 'build', 'render-cache')
 DOCUMENT_LEVEL = -sys.maxsize
 
 W_RE = re.compile(r'zw(\d+)x')
+# text leaves as they are read in the digested DOM and in the decoded text of the output files: marker words zw<n>x and the letter-only
+# markers &zu<letters>; (they can stand where the image-placeholder rewriting of PageTemplate looks for a unit: &name-width;&unit;)
+LEAF_RE = re.compile(r'zw(\d+)x|&zu([a-z]+);')
+U_BASE = 500000
+
+
+def u_letters(k):
+    out = ''
+    while True:
+        out = 'abcdefghijklmnopqrstuvwxyz'[k % 26] + out
+        k = k // 26 - 1
+        if k < 0:
+            return out
+
+
+def u_number(letters):
+    k = 0
+    for ch in letters:
+        k = k * 26 + (ord(ch) - 96)
+    return k - 1
+
+
+def word_name(w):
+    return 'zw%dx' % w if w < U_BASE else '&zu%s;' % u_letters(w - U_BASE)
+
+
+def leaf_words(text):
+    return [int(m.group(1)) if m.group(1) is not None else U_BASE + u_number(m.group(2)) for m in LEAF_RE.finditer(text)]
 T_RE = re.compile(r'zt(\d+)x')
 
 # node kinds: what the shipped templates do with a node (Model/Render.v std_tmpl); decided from the node's class name here
@@ -78,6 +106,10 @@ def gen_inlines(rng, cnt, labels, keys, depth=0, allow_fn=True, n=None, feats=()
             out.append([rng.choice(['ref', 'ref', 'ref', 'pageref']), rng.choice(labels)])
         elif r < 0.93 and keys and 'cite' in feats:
             out.append(['cite', rng.choice(keys)])
+        elif 'ph' in feats and rng.random() < 0.5:
+            # marker words glued to look-alikes of image placeholders: &name-width;&unit; with no blank in between
+            cnt.u = getattr(cnt, 'u', -1) + 1
+            out.append(['ph', cnt.word(), cnt.word(), cnt.u, cnt.word() if rng.random() < 0.6 else None, rng.choice(['width', 'height', 'depth'])])
         elif 'idx' in feats:
             cnt.k += 1
             if 'idxplain' in feats:
@@ -113,7 +145,7 @@ def gen_doc(rng, size=None, feats=None, label_style='plain', clash=None):
     cls = rng.choice(['article', 'article', 'book'])
     cmds = SEC_CMDS[cls]
     size = size if size is not None else rng.randint(2, 9)
-    feats = feats if feats is not None else tuple(f for f in ('fn', 'ref', 'cite', 'idx', 'list', 'fig') if rng.random() < 0.75)
+    feats = feats if feats is not None else tuple(f for f in ('fn', 'ref', 'cite', 'idx', 'list', 'fig', 'ph') if rng.random() < 0.75)
     cnt = Counter()
     # plan sections: a walk over depths (never skipping more than one level down from the top used so far is NOT required by plasTeX)
     top = rng.choice([0, 1, 1, 1]) if cls == 'article' else rng.choice([0, 1, 1])
@@ -191,7 +223,11 @@ def gen_doc(rng, size=None, feats=None, label_style='plain', clash=None):
             cnt.t += 1
         items.append(['bib', [[k, gen_inlines(rng, cnt, [], [], allow_fn=False, feats=(), n=rng.randint(1, 2))] for k in keys]])
     if 'idx' in feats and rng.random() < 0.8:
-        items.append(['printindex'])
+        if rng.random() < 0.4:
+            # the index as makeindex writes it into the .ind file
+            items.append(['theindex', rng.randint(1, 3)])
+        else:
+            items.append(['printindex'])
     return {'cls': cls, 'items': items}
 
 
@@ -205,6 +241,8 @@ def pr_inlines(ins):
             out.append('\\textbf{%s}' % pr_inlines(x[1]))
         elif k == 'fn':
             out.append('\\footnote{%s}' % pr_inlines(x[1]))
+        elif k == 'ph':
+            out.append('zw%dx\\&zw%dx-%s;\\&zu%s;%s' % (x[1], x[2], x[5], u_letters(x[3]), 'zw%dx' % x[4] if x[4] is not None else ''))
         elif k in ('ref', 'pageref'):
             out.append('\\%s{%s}' % (k, x[1]))
         elif k == 'cite':
@@ -256,6 +294,14 @@ def source(case):
             out.append('\\end{thebibliography}')
         elif k == 'printindex':
             out.append('\\printindex')
+        elif k == 'theindex':
+            out.append('\\begin{theindex}')
+            for i in range(it[1]):
+                out.append('\\item entry%s, %d' % ('abc'[i % 3], i + 1))
+                out.append('\\subitem sub%s, %d' % ('abc'[i % 3], i + 2))
+                if i + 1 < it[1]:
+                    out.append('\\indexspace')
+            out.append('\\end{theindex}')
         elif k == 'toc':
             out.append('\\tableofcontents')
         else:
@@ -616,8 +662,12 @@ def walk(document, renderer):
     serial = {}
     order = []
 
+    def is_text(node):
+        # Renderable.__str__ short-circuits text nodes and macros that have a unicode equivalent (.str): both are text
+        return node.nodeType == Node.TEXT_NODE or getattr(node, 'str', None) is not None
+
     def number(node):
-        if node.nodeType == Node.TEXT_NODE:
+        if is_text(node):
             return
         serial[id(node)] = len(order)
         order.append(node)
@@ -676,12 +726,14 @@ def walk(document, renderer):
         run = []          # adjacent text nodes (an undigested run of character tokens is one text)
 
         def flush():
-            for m in W_RE.finditer(''.join(run)):
-                kids.append(['w', int(m.group(1))])
+            for w in leaf_words(''.join(run)):
+                kids.append(['w', w])
             del run[:]
         for c in node.childNodes:
             if c.nodeType == Node.TEXT_NODE:
                 run.append(str(c))
+            elif is_text(c):
+                run.append(str(c.str))
             else:
                 flush()
                 kids.append(tree(c))
@@ -758,8 +810,7 @@ class Reader(HTMLParser):
             self.open_h.pop()
 
     def handle_data(self, data):
-        for m in W_RE.finditer(data):
-            self.words.append(int(m.group(1)))
+        self.words += leaf_words(data)
         for i in self.open_a:
             if i is not None:
                 self.links[i][2] += data
